@@ -120,7 +120,7 @@ def run(chk, prog):
                       "parse:clear:%s" % fld)
     chk.ok("R2", pf.where, "writers of _vm and of bound fields enumerated over all ProgramOptions methods")
     _, muts = O.vm_mutations(prog)
-    A.require(len(muts) >= 3, "parse: changes of the variables map not found")
+    A.require(len(muts) >= 2, "parse: changes of the variables map not found")
     for n, ok in muts:
         chk.check(ok, "R2", A.loc(pf, n), "the change of the variables map `%s` is followed by notify() on every path before parse() returns true "
                   "(otherwise the bound field keeps its old value)" % A.show(n)[:70].replace("\n", " "), "parse:unnotified:%s" % A.show(n)[:50].replace(" ", ""))
